@@ -272,13 +272,20 @@ def one_pair(ctx, t1, t2, ip, cases_model, cases_spec, cases_specs, corr=True):
         return
     tag = dict(case)
     # (c) Coq specification vs Python specification: every pair
-    cases_specs.append((spec_expr(t1, t2, ip), expected, dict(tag, what="coq spec vs python spec")))
+    # (the Coq expressions are built after sampling: see build())
+    cases_specs.append(("spec", t1, t2, ip, expected, dict(tag, what="coq spec vs python spec")))
     if D.in_model_guard(t1, t2):
         ctx.count("in_model_guard")
-        cases_model.append((D.model_text_expr(t1, t2, True, 0, 2, ip), observed, dict(tag, what="model vs implementation")))
-        cases_spec.append((spec_expr(t1, t2, ip), observed, dict(tag, what="coq spec vs implementation")))
+        cases_model.append(("model", t1, t2, ip, observed, dict(tag, what="model vs implementation")))
+        cases_spec.append(("spec", t1, t2, ip, observed, dict(tag, what="coq spec vs implementation")))
     else:
         ctx.count("outside_model_guard")
+
+
+def build(lazy):
+    kind, t1, t2, ip, obs, tag = lazy
+    expr = D.model_text_expr(t1, t2, True, 0, 2, ip) if kind == "model" else spec_expr(t1, t2, ip)
+    return (expr, obs, tag)
 
 
 def replay_witnesses(ctx):
@@ -308,7 +315,7 @@ def run(ctx):
     def pick(cs, n):
         n = n * 10 if ctx.thorough else n
         return cs if len(cs) <= n else ctx.rng.sample(cs, n)
-    cm, cs, css = pick(cases_model, 2500), pick(cases_spec, 2000), pick(cases_specs, 2000)
+    cm, cs, css = ([build(x) for x in pick(l, n)] for l, n in ((cases_model, 2500), (cases_spec, 2000), (cases_specs, 2000)))
     for c in cm[:3]:
         ctx.sample(c[2])
     hdr = D.MODEL_HDR + "\nFrom DD Require Import Diff.Spec."
